@@ -185,6 +185,8 @@ def _run(case, fs):
 
     M = worlds.world_model(world, stale=True)
     X = None
+    # cells the extract is obliged to contain (others read as blank there)
+    focus_closure = closure_of_focus(world, focus)
     uf = UserFuncs(case['knobs'].get('fail_on'))
     inputs = {'M': dict(world['cells']), 'X': None}
 
@@ -244,7 +246,9 @@ def _run(case, fs):
             sig.append(f'e{who}{fired[0] if fired else ""}')
             # independence: while one model is ahead of the other by an input
             # change, each must still compute from its *own* inputs
-            if X is not None and not fired and any(
+            in_scope = who == 'M' or names.get(
+                op['target'], op['target']) in focus_closure
+            if X is not None and not fired and in_scope and any(
                     inputs['M'].get(a) != inputs['X'].get(a)
                     for a in set(inputs['M']) | set(inputs['X'])):
                 twin = worlds.world_model(world, cells=inputs[who])
